@@ -72,9 +72,9 @@ class Rej:
 
 
 class Event:
-    __slots__ = ("kind", "node", "desc", "rejs", "loop", "callee", "tags", "fields")
+    __slots__ = ("kind", "node", "desc", "rejs", "loop", "callee", "tags", "fields", "qfields")
 
-    def __init__(self, kind, node, desc, rejs=(), loop=False, callee=None, tags=(), fields=()):
+    def __init__(self, kind, node, desc, rejs=(), loop=False, callee=None, tags=(), fields=(), qfields=()):
         self.kind = kind  # 'M' | 'C'
         self.node = node
         self.desc = desc
@@ -83,6 +83,7 @@ class Event:
         self.callee = callee
         self.tags = frozenset(tags)  # root tags of the objects written (M events)
         self.fields = frozenset(fields)
+        self.qfields = frozenset(qfields)  # "Class.field" where the receiver's class is known
 
     def __repr__(self):
         return f"{self.kind}<{self.desc}>"
@@ -91,13 +92,14 @@ class Event:
 class Summary:
     def __init__(self):
         self.mods: set[tuple[str, str]] = set()  # (root tag, field)
+        self.qmods: set[tuple[str, str]] = set()  # (root tag, "Class.field")
         self.rejs: dict[str, Rej] = {}
         self.fs: dict[str, str] = {}  # primitive -> kind
         self.fs_via: dict[str, str] = {}
         self.dirty: list = []  # [(M event, C event)] inside this function
 
     def sig(self):
-        return (len(self.mods), len(self.rejs), len(self.fs), len(self.dirty))
+        return (len(self.mods), len(self.rejs), len(self.fs), len(self.dirty), len(self.qmods))
 
 
 def path_condition(node: ast.AST, stop) -> str:
@@ -413,7 +415,7 @@ class Effects:
                 ev.loop = True
             # a loop body runs repeatedly: its events twice, so loop-carried orderings are visible
             evs.extend(inner)
-            evs.extend(Event(x.kind, x.node, x.desc, x.rejs, True, x.callee, x.tags, x.fields) for x in inner)
+            evs.extend(Event(x.kind, x.node, x.desc, x.rejs, True, x.callee, x.tags, x.fields, x.qfields) for x in inner)
             return
         if isinstance(e, ast.Lambda):
             return  # body runs when called
@@ -461,7 +463,9 @@ class Effects:
             tag = self.root_tag(f, t.value)
             if tag is not None:
                 self._sum[f.key].mods.add((tag, t.attr))
-                evs.append(Event("M", stmt, f"{norm(t)} {'deleted' if delete else 'written'}", loop=loop, tags=[tag], fields=[t.attr]))
+                q = self._qual(f, t.value, t.attr)
+                self._sum[f.key].qmods.add((tag, q))
+                evs.append(Event("M", stmt, f"{norm(t)} {'deleted' if delete else 'written'}", loop=loop, tags=[tag], fields=[t.attr], qfields=[q]))
             return
         if isinstance(t, ast.Subscript):
             self._emit(f, t.value, evs, loop)
@@ -486,10 +490,12 @@ class Effects:
             tag = self.root_tag(f, base)
             if tag is not None:
                 self._sum[f.key].mods.add((tag, f"{fld}[]"))
+                q = self._qual(f, base.value, fld) if isinstance(base, ast.Attribute) else fld
+                self._sum[f.key].qmods.add((tag, q))
                 if delete:
                     rej = Rej(f.key, f"key of `{norm(stmt)}` absent", "KeyError", stmt)
                     evs.append(Event("C", stmt, f"{norm(stmt)} may raise", [rej], loop=loop))
-                evs.append(Event("M", stmt, f"{norm(t)} {'deleted' if delete else 'stored'}", loop=loop, tags=[tag], fields=[f"{fld}[]"]))
+                evs.append(Event("M", stmt, f"{norm(t)} {'deleted' if delete else 'stored'}", loop=loop, tags=[tag], fields=[f"{fld}[]"], qfields=[q]))
 
     def _call(self, f, call: ast.Call, evs, loop) -> None:
         d = dotted_of(call.func) or ""
@@ -523,7 +529,9 @@ class Effects:
                         evs.append(Event("C", call, f"{norm(call)} may raise", [rej], loop=loop))
                     if m not in MULTISET_PRESERVING or True:
                         s.mods.add((tag, f"{fld}.{m}()"))
-                        evs.append(Event("M", call, f"{norm(call)}", loop=loop, tags=[tag], fields=[f"{fld}.{m}()"]))
+                        q = self._qual(f, recv.value, fld) if isinstance(recv, ast.Attribute) else fld
+                        s.qmods.add((tag, q))
+                        evs.append(Event("M", call, f"{norm(call)}", loop=loop, tags=[tag], fields=[f"{fld}.{m}()"], qfields=[q]))
 
     def _apply_alternatives(self, f, site, tg, evs, loop, recv=None, args=(), keywords=()) -> None:
         """Several possible callees at one site (dynamic dispatch) are alternatives, not a sequence:
@@ -627,8 +635,48 @@ class Effects:
             new_tags.add(new)
             new_fields.add(fld)
             hit = True
+        new_q = set()
         if hit:
-            evs.append(Event("M", site, f"call {g.local} mutates", loop=loop, callee=g, tags=new_tags, fields=new_fields))
+            for tag, q in list(gs.qmods):
+                nt = self._translate_tag(f, site, g, tag, recv, args, keywords, is_ctor)
+                if nt is not None:
+                    s.qmods.add((nt, q))
+                    new_q.add(q)
+            evs.append(Event("M", site, f"call {g.local} mutates", loop=loop, callee=g, tags=new_tags, fields=new_fields, qfields=new_q))
+
+    def _translate_tag(self, f, site, g, tag, recv, args, keywords, is_ctor):
+        if tag == "self":
+            if recv is None:
+                if is_ctor or g.cls is None:
+                    return None
+                return "*"
+            if isinstance(recv, ast.Call) and dotted_of(recv.func) == "super":
+                return self.root_tag(f, ast.Name(id=f.params[0], ctx=ast.Load())) if f.params else "*"
+            return self.root_tag(f, recv)
+        if tag.startswith("p"):
+            i = int(tag[1:])
+            off = 1 if (g.cls is not None and g.kind not in ("staticmethod",)) else 0
+            ai = i - off
+            arg = None
+            if 0 <= ai < len(args):
+                arg = args[ai]
+            else:
+                pname = g.params[i] if i < len(g.params) else None
+                for k in keywords or ():
+                    if k.arg == pname:
+                        arg = k.value
+            if arg is None:
+                return "*" if i >= len(g.params) else None
+            if isinstance(arg, ast.Starred):
+                arg = arg.value
+            return self.root_tag(f, arg) if isinstance(arg, (ast.Name, ast.Attribute, ast.Subscript, ast.Call)) else None
+        return "*"
+
+    def _qual(self, f, recv_expr, field: str) -> str:
+        cs = sorted({c.name for c in self.ty.recv_classes(f, recv_expr)})
+        if isinstance(recv_expr, ast.Name) and f.params and recv_expr.id == f.params[0] and f.cls is not None:
+            cs = [(getattr(f, "self_cls", None) or f.cls).name]
+        return f"{'|'.join(cs)}.{field}" if cs else field
 
     # --------------------------------------------------------------- M before C
     def m_before_c(self, f: FuncInfo):
